@@ -7,7 +7,7 @@ import json, os, subprocess, sys
 sys.path.insert(0, os.path.join(os.path.dirname(os.path.abspath(__file__)), "..", "lib"))
 import mcrapid
 
-MUT = {"revert-F-C14-1.diff": "C14", "revert-F-C10-5.diff": "C10", "revert-F-C19-3.diff": "C19", "mut-fe-report-on-timeout.diff": "C05", "revert-F-C19-2.diff": "C19", "revert-F-C08-2.diff": "C08", "revert-F-C03-1.diff": "C03", "revert-F-C10-2.diff": "C10", "revert-F-C10-4.diff": "C10", "revert-F-C05-2.diff": "C05", "revert-F-C10-3.diff": "C10"}
+MUT = {"revert-F-C10-6.diff": "C10", "revert-F-C14-1.diff": "C14", "revert-F-C10-5.diff": "C10", "revert-F-C19-3.diff": "C19", "mut-fe-report-on-timeout.diff": "C05", "revert-F-C19-2.diff": "C19", "revert-F-C08-2.diff": "C08", "revert-F-C03-1.diff": "C03", "revert-F-C10-2.diff": "C10", "revert-F-C10-4.diff": "C10", "revert-F-C05-2.diff": "C05", "revert-F-C10-3.diff": "C10"}
 ASFOUND = [("race", '{"watch-close-first"}', "ResetIsFresh"), ("faults", '{"clear-outside-mutex"}', "RuntimeAfterRegistrations"),
            ("two", '{"reset-wrapper-releases"}', "OkHasBody"), ("twox", '{"double-reset"}', "OkHasBody")]
 
